@@ -24,10 +24,10 @@ def configs(ctx):
     base = dict(D=1, P1=2, P2=0, N1=3, N2=0, MaxLev=3, Disp=0, TruncMark=False, MaxCalls=3, MarkCap=0, DoEmit=True)
     out = []
 
-    def add(name, workers=2, repr=False, **kw):
+    def add(name, workers=2, repr=False, sim=None, **kw):
         c = dict(base)
         c.update(kw)
-        out.append((name, c, workers, repr))
+        out.append((name, c, workers, repr, sim))
     add('1d-p2-n3-inf', repr=True, MaxCalls=2)
     add('1d-p2-n3-d1', Disp=1, repr=True)
     add('1d-p1-n4-d1', P1=1, N1=4, Disp=1)
@@ -37,7 +37,13 @@ def configs(ctx):
     add('2d-p1-2x2-inf', D=2, P1=1, P2=1, N1=2, N2=2, MaxCalls=2, MarkCap=2, workers=4)
     add('2d-p1-2x2-inf-repr', D=2, P1=1, P2=1, N1=2, N2=2, MaxCalls=2, MarkCap=1, workers=4, repr=True)
     add('2d-p12-2x2-d1', D=2, P1=1, P2=2, N1=2, N2=2, Disp=1, MaxCalls=2, MarkCap=2, workers=4)
+    # deep random histories (TLC -simulate, one RandomElement successor per state): interval marks on one level per call
+    add('sim-1d-p1-n4-d2-L6', P1=1, N1=4, MaxLev=6, Disp=2, MaxCalls=6, MarkCap=91, workers=4,
+        sim=(120 if not ctx.thorough else 1500, 8))
     if ctx.thorough:
+        add('sim-1d-p2-n5-d2-L6', P1=2, N1=5, MaxLev=6, Disp=2, MaxCalls=6, MarkCap=91, workers=4, sim=(600, 8))
+        add('sim-1d-p1-n3-d3-L7', P1=1, N1=3, MaxLev=7, Disp=3, MaxCalls=7, MarkCap=91, workers=4, sim=(400, 9))
+        add('sim-1d-p2-n4-d1-L5', P1=2, N1=4, MaxLev=5, Disp=1, MaxCalls=6, MarkCap=91, workers=4, sim=(600, 8))
         add('1d-p2-n3-inf-c3', repr=True, workers=4)
         add('1d-p1-n2-L4-d1-repr', P1=1, N1=2, MaxLev=4, Disp=1, MarkCap=2, repr=True, workers=4)
         add('2d-p21-2x2-d1-repr', D=2, P1=2, P2=1, N1=2, N2=2, Disp=1, MaxCalls=2, MarkCap=2, workers=8, repr=True)
@@ -236,9 +242,12 @@ def run(ctx):
     todo = configs(ctx)
 
     def one(item):
-        name, consts, workers, rep = item
+        name, consts, workers, rep, sim = item
         cfg = write_cfg(ctx.scratch / ('hs_%s.cfg' % name), consts, invariants=INVS + (['BasisOK'] if rep else []),
                         view='View')
+        if sim:
+            return name, consts, ctx.tlc('HSpace', cfg, workers=workers, timeout=3000, simulate=sim[0], depth=sim[1],
+                                         seed=ctx.seed + 17)
         return name, consts, ctx.tlc('HRepr' if rep else 'HSpace', cfg, workers=workers, timeout=3000)
     with ThreadPoolExecutor(4) as ex:
         results = list(ex.map(one, todo))
@@ -247,6 +256,11 @@ def run(ctx):
         sts = res.recs('ST')
         if not sts:
             raise MachineryError('no states emitted for %s' % name)
+        if name.startswith('sim-'):      # simulation prints every prefix of every trace: keep each history once
+            uniq = {}
+            for st in sts:
+                uniq.setdefault(json.dumps([c['marks'] for c in st['hist']]), st)
+            sts = list(uniq.values())
         events_all = []
         for n, st in enumerate(sts):
             hist = st['hist']
@@ -264,6 +278,15 @@ def run(ctx):
                 events_all += events
                 continue
             events_all += events
+            if consts['Disp'] > 0 and not consts['TruncMark'] and n % 2 == 0:
+                # the same history on a THB space (truncate=True) with the DEFAULT marking: the mesh and the
+                # activation sets must not depend on the basis flag
+                hs_t, ev_t, err_t = hs_util.replay_history(consts, hist, containers=('set',), truncate=True)
+                if err_t is None:
+                    events_all += ev_t
+                    if hs_util.project(hs_t) != hs_util.project(hs):
+                        ctx.violation('mesh-depends-on-truncate-flag config=%s marks=%s' % (name, json.dumps(marks)),
+                                      {'hb': hs_util.project(hs), 'thb': hs_util.project(hs_t)})
             got = hs_util.project(hs)
             same = all(hs_util.same_sets(got[k], st[k]) for k in ('active', 'deact', 'actfun', 'deactfun'))
             if not same and consts['Disp'] == 0:
